@@ -15,7 +15,7 @@ import ms
 from common import qlit
 
 MANIFEST = dict(
-    text='Theorems (props/C12.v, 14, all closed under the global context) about a hand-written Gallina model of HaighDiagram.transform / '
+    text='Theorems (props/C12.v, 18, all closed under the global context) about a hand-written Gallina model of HaighDiagram.transform / '
          '_SegmentTransformer (segment ordering by distance from the target in fake-mean-stress space with stable ties, closed test interval, '
          'the +-inf flip, transformed_amplitude incl. R_goal = -inf and 1.0 -> -inf), the FKM-Goodman and five-segment diagram constructors and '
          '_rebin_results, over Q with an extended rational type for R. segment_walk_invariant: a * H(R) is invariant under every step of the '
@@ -27,7 +27,11 @@ MANIFEST = dict(
          'every cycle and target EXCEPT the class found by this check (code as it is: target R = -inf and a cycle at R > 1 is not transformed; '
          'five_segment_neg_inf_refuted gives the witness); the same theorems hold without exception for the repaired code (flag fx = true = '
          'fixes/C12-five-segment-target-neg-inf.patch). matrix_conserves_cycles: re-binning puts every transformed range into exactly one result '
-         'interval. The model is tied to the code by a vm_compute correspondence check of amplitude and mean through the plain functions, the '
+         'interval. Listing order of the segments (diagrams built by HaighDiagram.from_dict): segment_walk_invariant_any_listing (the invariant holds for every '
+         'listing, with and without the repair), natural_listing_refuted (code as it is: the FKM-Goodman diagram listed in the natural order of R leaves a cycle '
+         'at R = 2 untransformed for the goal R = 1/2 and is path dependent; open finding segment-listing-order), listing_repair_keeps_fkm_goodman / '
+         '_five_segment (fixes/C12-segment-listing-order.patch, model flag fo = true, does not change the constructors\' diagrams, so every theorem above carries over). '
+         'The model is tied to the code by a vm_compute correspondence check of amplitude and mean through the plain functions, the '
          'DataFrame accessor (several index layouts, one diagram per element) and the histogram accessor, and of the re-binned counts.',
     note=common.TB_NOTE + 'all C12 theorems are closed under the global context (no axioms). Model is hand-written: the correspondence harness '
          '(generators, Coq literals, exact Fraction oracle) is trusted; float rounding is outside the theorems (comparison tolerance 1e-9 '
@@ -35,7 +39,11 @@ MANIFEST = dict(
          'the re-binning: the interval edges are taken from the implementation and checked against the hypotheses of matrix_conserves_cycles) are '
          'covered by the correspondence only; R_goal = 1 and R_goal = +inf are rejected by the model (the code raises / returns garbage there); '
          'five-segment slopes outside [0, 1) (the test-suite uses M3 = 1, M4 = -2) are covered by correspondence and the exact oracle, not by the theorems; '
-         'monotonicity/continuity are proved for FKM-Goodman only (five-segment: oracle relations on the implementation).',
+         'monotonicity/continuity are proved for FKM-Goodman only (five-segment: oracle relations on the implementation); that the walk ARRIVES at the goal is '
+         'proved for the constructors\' listings only -- other listings accepted by the gap check (rotations of the natural order, built by from_dict) are '
+         'covered by correspondence and the oracle relations; bin-by-bin agreement of the matrix interface with the plain function for every row / level order of '
+         'the matrix and cycles with an IEEE negative zero as upper value are relations on the implementation only (the Q model has no signed zero; the model\'s '
+         're-binning is fed with the pairing the code uses).',
     technique='Coq proof (invariant + case analysis, lra/nra/field over Q) over hand-written Gallina model + vm_compute correspondence',
     design='6/C12')
 
@@ -48,9 +56,17 @@ W_CONT = 'transformed amplitude jumps across a segment border'
 W_IFACE = 'interfaces disagree'
 W_CONS = 'matrix transformation does not conserve the number of cycles'
 W_RGOAL = 'matrix transformation result is not at the target R'
+W_BOOK = 'matrix transformation books cycles into other result classes than the plain function (same total)'
 
 KF_WITNESS = {'diagram': {'kind': 'five', 'M0': 0.5, 'M1': 0.25, 'M2': 0.125, 'M3': 0.0625, 'M4': 0.25, 'R12': 0.25, 'R23': 0.5},
               'R_goal': -ms.INF, 'cycle': [-4.0, -2.0]}
+# FKM-like diagram listed in the natural order of R through HaighDiagram.from_dict; cycle at R = 2 to R = 1/2
+KF_LISTING = {'diagram': {'kind': 'fkm', 'M': 0.5, 'M2': 0.25, 'listing': 0}, 'R_goal': 0.5, 'cycle': [-4.0, -2.0]}
+# 2 x 2 range/mean matrix with the rows listed in another order than the product order
+KF_ROWS = {'diagram': {'kind': 'fkm', 'M': 0.5, 'M2': 0.25}, 'R_goal': -1.0, 'hist_kind': 'range_mean',
+           'x_breaks': [0.0, 1.0, 2.0], 'y_breaks': [-1.0, 0.0, 1.0], 'counts': [[1, 2], [3, 4]], 'extra': None,
+           'order': {'levels': None, 'perm': [0, 1, 3, 2]}}
+KF_NEGZERO = {'diagram': {'kind': 'fkm', 'M': 0.5, 'M2': 0.25}, 'R_goal': -1.0, 'cycle': [-2.0, -0.0]}
 TOL = F(1, 10 ** 9)
 INF = ms.INF
 
@@ -79,6 +95,52 @@ def in_known_class(v):
     if max(f, t) < 0:
         return True
     return v.get('R_1') is not None and v['R_1'] != -INF and v['R_1'] > 1
+
+
+def is_neg_zero(x):
+    return x == 0 and math.copysign(1.0, x) < 0
+
+
+def in_listing_class(v):
+    """diagram built by from_dict in another listing order than the constructors' ((1, inf) first, (-inf, 0) second, then
+    ascending R) and a transformation leg from beyond R = 1 to a target inside (0, 1).  (1, inf) and (-inf, 0) tie in the
+    distance from every goal; the order in which ties are walked is whatever Series.sort_values() (default kind, which is
+    NOT stable for 4 or more float64 values with this numpy) makes of the listing.  If (-inf, 0) comes first the cycle is
+    parked at R = -inf after (-inf, 0) has been walked and is not picked up again.
+    Legs: cycle -> R_goal, cycle -> R_1, R_1 -> R_goal."""
+    d = v.get('diagram', {})
+    if not ms.listed_otherwise_than_constructor(d) or 'cycle' not in v:
+        return False
+
+    def inside(g):
+        return g is not None and g != -INF and 0 < g < 1
+    f, t = v['cycle']
+    R1 = v.get('R_1')
+    if max(f, t) < 0 and (inside(v.get('R_goal')) or inside(R1)):
+        return True
+    return R1 is not None and R1 != -INF and R1 > 1 and inside(v.get('R_goal'))
+
+
+def in_rows_class(v):
+    """matrix whose rows are not listed in the lexicographic (product) order of its own index levels -- rows permuted, or
+    levels reordered without re-sorting the rows"""
+    if not v.get('order'):
+        return False
+    s = ms.hist_series(v['hist_kind'], v['x_breaks'], v['y_breaks'], v['counts'], v.get('extra'), v['order'])
+    return not s.index.is_monotonic_increasing
+
+
+def in_negzero_class(v):
+    """collective cycle whose upper value is IEEE -0.0 (R = lower / -0.0 = +inf instead of -inf)"""
+    c = v.get('cycle')
+    return bool(c) and min(c) < 0 and is_neg_zero(max(c)) and any(is_neg_zero(x) for x in c)
+
+
+def register_classes(res):
+    res.classes['five-segment-M4-target-neg-inf'] = in_known_class
+    res.classes['from-dict-listing-other-than-constructor'] = in_listing_class
+    res.classes['matrix-rows-not-in-product-order'] = in_rows_class
+    res.classes['collective-upper-value-negative-zero'] = in_negzero_class
 
 
 # --------------------------------------------------------------------------- relations on the implementation (one cycle)
@@ -148,8 +210,8 @@ def replay_violation(v):
         if what == W_MONO:
             return any(out[i + 1] < out[i] - 1e-12 * max(1.0, abs(out[i])) for i in range(len(out) - 1))
         return abs(out[1] - out[0]) > v['bound']
-    if what in (W_CONS, W_RGOAL):
-        s = ms.hist_series(v['hist_kind'], v['x_breaks'], v['y_breaks'], v['counts'], v.get('extra'))
+    if what in (W_CONS, W_RGOAL, W_BOOK):
+        s = ms.hist_series(v['hist_kind'], v['x_breaks'], v['y_breaks'], v['counts'], v.get('extra'), v.get('order'))
         try:
             r = ms.impl_hist_fkm(d, s, Rg)
             tot = float(r.sum())
@@ -157,8 +219,39 @@ def replay_violation(v):
             return True
         if what == W_CONS:
             return abs(tot - float(s.sum())) > 1e-9
+        if what == W_BOOK:
+            return booking_defect(d, s, r, Rg) is not None
         return hist_goal_defect(r, Rg) is not None
     return True
+
+
+def aligned_ranges(d, s, Rg):
+    """transformed range of every class of the matrix s, by LABEL (HaighDiagram.transform may return the rows in another
+    order than s lists them): (Series aligned with s, Series as returned)"""
+    ranges, _ = ms.impl_hist_transform(d, s, Rg)
+    al = ranges.reorder_levels(s.index.names) if list(ranges.index.names) != list(s.index.names) else ranges
+    return al.reindex(s.index), ranges
+
+
+def booking_defect(d, s, r, Rg):
+    """re-bins, with the result intervals of the implementation, the transformed range of every class (taken by label, equal
+    to the plain function's result: W_IFACE) and compares bin by bin (and per value of the extra levels) with the result r of
+    the matrix interface; returns None or (result label, observed, expected)"""
+    al, _ = aligned_ranges(d, s, Rg)
+    rv = al.to_numpy(dtype=float)
+    cnt = s.to_numpy(dtype=float)
+    extra_names = [n for n in s.index.names if n not in ('range', 'mean', 'from', 'to')]
+    extra_vals = [s.index.get_level_values(n).to_numpy() for n in extra_names]
+    for lab, got in r.items():
+        lab = dict(zip(r.index.names, lab))
+        iv = lab['range']
+        m = ((rv >= iv.left) if iv.left == 0.0 else (rv > iv.left)) & (rv <= iv.right)
+        for n, vals in zip(extra_names, extra_vals):
+            m = m & (vals == lab[n])
+        exp = float(cnt[m].sum())
+        if abs(exp - float(got)) > 1e-9:
+            return (str(lab), float(got), exp)
+    return None
 
 
 def hist_goal_defect(r, Rg):
@@ -189,15 +282,21 @@ def batch(res, rng, d, Rg, stats, terms, info, cyc=None):
         sc = scale_of(a, m)
         args = (qlit(2 * fa[k]), qlit(fm[k])) if as_rm else (qlit(ft[0]), qlit(ft[1]))
         Rc = cyc_R_float(ft)
-        # model vs implementation: amplitude and mean of the resulting collective (mean only where it is finite)
-        if math.isfinite(amps[k]) and math.isfinite(means[k]):
-            terms.append('obs_close %s %s (transform %s %s %s (%s %s %s)) %s %s' % (
-                qlit(TOL), qlit(sc), stats['fx'], dl, gl, ctor, args[0], args[1], qlit(amps[k]), qlit(means[k])))
+        # model vs implementation: amplitude and mean of the resulting collective (mean only where it is finite).
+        # While the finding segment-listing-order reproduces, the cases of its class are not compared: there the result depends
+        # on the order in which sort_values() (default kind: not stable) returns the two tied segments, which the code leaves
+        # unspecified and the model (stable sort) cannot predict; the property's relations below run on them all the same.
+        if stats['fofx'].startswith('false') and in_listing_class(dict(diagram=d, R_goal=Rg, cycle=list(ft))):
+            stats['tie_order_unspecified'] += 1
+        elif math.isfinite(amps[k]) and math.isfinite(means[k]):
+            terms.append('obs_close %s %s (transform_ord %s %s %s (%s %s %s)) %s %s' % (
+                qlit(TOL), qlit(sc), stats['fofx'], dl, gl, ctor, args[0], args[1], qlit(amps[k]), qlit(means[k])))
         else:
             terms.append('false')
-        info.append({'diagram': d, 'R_goal': Rg, 'cycle': list(ft), 'interface': 'collective/' + cols[0] + '/' + layout,
-                     'impl_amplitude': amps[k], 'impl_mean': means[k]})
-        stats['nontrivial'].add((repr(sorted(d.items(), key=str)), Rg, ft))
+        if len(info) < len(terms):
+            info.append({'diagram': d, 'R_goal': Rg, 'cycle': list(ft), 'interface': 'collective/' + cols[0] + '/' + layout,
+                         'impl_amplitude': amps[k], 'impl_mean': means[k]})
+            stats['nontrivial'].add((repr(sorted(d.items(), key=str)), Rg, ft))
         key = 'R>1' if (Rc != -INF and Rc > 1) else 'R=-inf' if Rc == -INF else 'R<=0' if Rc <= 0 else '0<R<1'
         stats['cycle_regions'][key] = stats['cycle_regions'].get(key, 0) + 1
         base = dict(diagram=d, R_goal=Rg, cycle=list(ft))
@@ -292,8 +391,8 @@ def multi_batch(res, rng, kind, stats, terms, info):
                 res.violation(W_IFACE, diagram=dd, R_goal=Rg, cycle=list(ft), interface='one diagram per element',
                               observed={'per element': out[k][0][j], 'single': single[0][j]}, all_diagrams=ds)
             if math.isfinite(out[k][0][j]) and math.isfinite(out[k][1][j]):
-                terms.append('obs_close %s %s (transform %s %s %s (cyc_of_from_to %s %s)) %s %s' % (
-                    qlit(TOL), qlit(sc), stats['fx'], ms.diagram_lit(dd), ms.elit(Rg), qlit(ft[0]), qlit(ft[1]),
+                terms.append('obs_close %s %s (transform_ord %s %s %s (cyc_of_from_to %s %s)) %s %s' % (
+                    qlit(TOL), qlit(sc), stats['fofx'], ms.diagram_lit(dd), ms.elit(Rg), qlit(ft[0]), qlit(ft[1]),
                     qlit(out[k][0][j]), qlit(out[k][1][j])))
             else:
                 terms.append('false')
@@ -322,17 +421,43 @@ def gen_hist(rng):
     def mat():
         return [[rng.choice([0, 0, 1, 2, 3, 5, 10]) for _ in range(ny)] for _ in range(nx)]
     counts = [mat(), mat()] if extra else mat()
-    return kind, [float(v) for v in xb], [float(v) for v in yb], counts, extra
+    # index layout of the matrix: level order and row order (product order / rows listed in another order)
+    names = (['range', 'mean'] if kind == 'range_mean' else ['from', 'to']) + (['node_id'] if extra else [])
+    order = None
+    q = rng.random()
+    if q < 0.45:
+        n = nx * ny * (2 if extra else 1)
+        perm = list(range(n))
+        if q < 0.3:
+            rng.shuffle(perm)
+        elif q < 0.38:
+            perm.reverse()
+        else:                       # two rows swapped
+            i, j = rng.sample(range(n), 2)
+            perm[i], perm[j] = perm[j], perm[i]
+        levels = None
+        if rng.random() < 0.3:
+            levels = list(names)
+            rng.shuffle(levels)
+        order = {'levels': levels, 'perm': perm}
+    elif q < 0.55:
+        levels = list(names)
+        rng.shuffle(levels)
+        order = {'levels': levels, 'perm': None}
+    return kind, [float(v) for v in xb], [float(v) for v in yb], counts, extra, order
 
 
 def hist_batch(res, rng, stats, terms, info, rterms, rinfo):
     d = ms.gen_fkm(rng)
     Rg = ms.gen_goal(rng, d, matrix=True)
-    kind, xb, yb, counts, extra = gen_hist(rng)
-    s = ms.hist_series(kind, xb, yb, counts, extra)
-    base = dict(diagram=d, R_goal=Rg, hist_kind=kind, x_breaks=xb, y_breaks=yb, counts=counts, extra=extra)
-    x = s.index.get_level_values(0).mid.to_numpy(dtype=float)
-    y = s.index.get_level_values(1).mid.to_numpy(dtype=float)
+    kind, xb, yb, counts, extra, order = gen_hist(rng)
+    s = ms.hist_series(kind, xb, yb, counts, extra, order)
+    base = dict(diagram=d, R_goal=Rg, hist_kind=kind, x_breaks=xb, y_breaks=yb, counts=counts, extra=extra, order=order)
+    key = 'product order' if order is None else ('rows reordered' if order.get('perm') is not None else 'levels reordered')
+    stats['hist_layouts'][key] = stats['hist_layouts'].get(key, 0) + 1
+    lx, ly = ('range', 'mean') if kind == 'range_mean' else ('from', 'to')
+    x = s.index.get_level_values(lx).mid.to_numpy(dtype=float)
+    y = s.index.get_level_values(ly).mid.to_numpy(dtype=float)
     if kind == 'range_mean':
         amp, mean = x / 2., y
     else:
@@ -340,7 +465,14 @@ def hist_batch(res, rng, stats, terms, info, rterms, rinfo):
     if not (amp > 0).any():
         stats['hist_degenerate'] += 1
         return
-    ranges, _ = ms.impl_hist_transform(d, s, Rg)
+    # transformed range of every class, taken by label (rv, in the row order of s), and as HaighDiagram.transform returns
+    # them (ranges_pos: _rebin_results pairs these positionally with the counts)
+    try:
+        ranges, ranges_pos = aligned_ranges(d, s, Rg)
+    except Exception as e:      # index layouts pandas / the broadcaster rejects are not part of the property
+        stats['hist_rejected'] = stats.get('hist_rejected', 0) + 1
+        stats['hist_rejected_example'] = repr(e)[:200]
+        return
     rv = [float(v) for v in ranges.to_numpy()]
     plain = ms.impl_plain(d, [float(v) for v in amp], [float(v) for v in mean], Rg)
     try:
@@ -357,9 +489,9 @@ def hist_batch(res, rng, stats, terms, info, rterms, rinfo):
         if not close(rv[k] / 2., plain[k], sc, 1e-12):
             res.violation(W_IFACE, observed={'histogram class': rv[k] / 2., 'plain': plain[k]}, interface='histogram/' + kind,
                           cycle=[float(mean[k] - amp[k]), float(mean[k] + amp[k])], diagram=d, R_goal=Rg)
-        if extra is None or k % 2 == 0:
-            terms.append('obs_amp_close %s %s (transform %s %s %s (%s %s %s)) %s' % (
-                qlit(TOL), qlit(sc), stats['fx'], ms.diagram_lit(d), ms.elit(Rg), ctor, qlit(x[k]), qlit(y[k]), qlit(rv[k] / 2.)))
+        if extra is None or s.index.get_level_values('node_id')[k] == extra[0]:
+            terms.append('obs_amp_close %s %s (transform_ord %s %s %s (%s %s %s)) %s' % (
+                qlit(TOL), qlit(sc), stats['fofx'], ms.diagram_lit(d), ms.elit(Rg), ctor, qlit(x[k]), qlit(y[k]), qlit(rv[k] / 2.)))
             info.append({'diagram': d, 'R_goal': Rg, 'interface': 'histogram/' + kind, 'class_mids': [float(x[k]), float(y[k])],
                          'impl_amplitude': rv[k] / 2.})
     # conservation of the number of cycles (the property itself, on the implementation)
@@ -376,20 +508,27 @@ def hist_batch(res, rng, stats, terms, info, rterms, rinfo):
                 res.violation(W_CONS, observed=to_, expected=ti, node_id=nid, **base)
     if len(r) and hist_goal_defect(r, Rg) is not None:
         res.violation(W_RGOAL, observed=str(r.index[hist_goal_defect(r, Rg)]), **base)
+    # every class is booked into the result class its transformed range belongs to (bin by bin, not only in total)
+    stats['hist_booked'] += 1
+    bd = booking_defect(d, s, r, Rg)
+    if bd is not None:
+        res.violation(W_BOOK, result_class=bd[0], observed=bd[1], expected=bd[2], **base)
     # re-binning model vs implementation; hypotheses of matrix_conserves_cycles on the real intervals
     ri = r.index.get_level_values('range')
+    # sum_intervals pairs ranges.values with obj.iloc[...] by POSITION (code as it is) / the repaired code aligns them by label
+    paired = ranges if stats['rebin_by_label'] else ranges_pos
     if extra is None:
         itv = list(ri)
         vals = [float(v) for v in r.to_numpy()]
         cyc = [float(v) for v in s.to_numpy()]
-        rr = rv
+        rr = [float(v) for v in paired.to_numpy()]
     else:
         nid = extra[0]
         sub = r.xs(nid, level='node_id')
         itv = list(sub.index.get_level_values('range'))
         vals = [float(v) for v in sub.to_numpy()]
         cyc = [float(v) for v in s.xs(nid, level='node_id').to_numpy()]
-        rr = [float(v) for v in ranges.xs(nid, level='node_id').to_numpy()]
+        rr = [float(v) for v in paired.xs(nid, level='node_id').to_numpy()]
     breaks = [float(itv[0].left)] + [float(iv.right) for iv in itv]
     hyp = (breaks[0] == 0.0 and all(b1 > b0 for b0, b1 in zip(breaks, breaks[1:])) and breaks[-1] == max(rv)
            and min(rv) >= 0.0)
@@ -399,6 +538,31 @@ def hist_batch(res, rng, stats, terms, info, rterms, rinfo):
         stats['rebin_hyp_examples'].append({'breaks': breaks, 'max': max(rv), 'min': min(rv)})
     rterms.append('all_close %s 1 (rebin %s %s %s) %s' % (qlit(TOL), ms.qlist(breaks), ms.qlist(rr), ms.qlist(cyc), ms.qlist(vals)))
     rinfo.append(dict(base, breaks=breaks, transformed_ranges=rr, result=vals))
+
+
+def signed_zero_batch(res, rng, stats):
+    """collective cycles with an IEEE negative zero as upper / lower value (e.g. the result of -1 * 0.0 or of a rounding
+    towards zero from below): -0.0 == 0.0, so the cycle is the same cycle and every interface must return what the plain
+    function returns for (amplitude, mean)."""
+    d = ms.gen_fkm(rng) if rng.random() < 0.6 else ms.gen_five(rng)
+    Rg = ms.gen_goal(rng, d)
+    if Rg == 1.0 or not ms.denominators_ok(d, Rg):
+        return
+    u = [ms.dyadic(rng, 1. / 4, 8, 4) for _ in range(4)]
+    cyc = [(-u[0], -0.0), (-0.0, -u[1]), (-0.0, u[2]), (u[3], -0.0)]
+    fr, to = [c[0] for c in cyc], [c[1] for c in cyc]
+    am = [ms.am_of(c) for c in cyc]
+    amps = ms.impl_collective(d, ('from_to', fr, to), Rg, rng.choice(['range', 'named', 'multi']))[0]
+    plain = ms.impl_plain(d, [float(a) for a, m in am], [float(m) for a, m in am], Rg)
+    stats['calls'] += 2
+    for k, ft in enumerate(cyc):
+        o = ms.oracle(d, am[k][0], am[k][1], Rg)
+        if o is None or o <= 0:
+            continue
+        stats['signed_zero'] += 1
+        if not close(plain[k], amps[k], scale_of(*am[k]), 1e-12):
+            res.violation(W_IFACE, observed={'plain': plain[k], 'collective': amps[k]}, interface='from_to/signed zero',
+                          diagram=d, R_goal=Rg, cycle=list(ft))
 
 
 def compare_retry(name, requires, terms, shard):
@@ -429,25 +593,29 @@ def load_corpus():
 def run(res):
     quick = res.tier == 'quick'
     rng = res.rng
-    res.classes['five-segment-M4-target-neg-inf'] = in_known_class
+    register_classes(res)
     res.trusted += ['hand-written Gallina model coq/theories/Strength/MeanStress.v, tied by the correspondence check (this harness)',
                     'exact Fraction oracle in harness/ms.py (closed form written from the geometry of the Haigh diagram, not from the code)']
     res.assumptions += ['float rounding is outside the theorems: model and oracle are compared with the implementation at 1e-9 relative to '
                         'max(1, amplitude + |mean|)',
                         'amplitude > 0, 0 <= M2 <= M < 1 resp. five-segment parameters with 0 < R12 < R23 < 1 and no vanishing divisor; '
                         'R_goal not in {1, +inf}; cycles whose exact iso-damage amplitude is not positive are skipped by the relations',
-                        'pandas sort_values on <= 5 distances is stable (ties keep IntervalIndex order); checked by the correspondence']
+                        'pandas sort_values keeps the tie (1, inf) before (-inf, 0) for the listing order of the constructors (default kind; with this numpy it is NOT '
+                        'stable in general for >= 4 float64 values -- part of the open finding segment-listing-order); checked by the correspondence on every run']
     res.cov['rule'] = ('diagrams: FKM-Goodman (M dyadic in [0,1), M2 <= M, M2 = M, M2 = 0, default M/3) and five-segment (dyadic and non-dyadic R12 < R23, '
                        'slopes in [0,1), 10% wild slopes in [-2,2] with divisors bounded away from 0); targets: -inf, borders 0/R12/R23, segment mids '
                        '(distance 0), dyadic R < 1 and R > 1; cycles: random dyadic (amplitude, mean), exactly on borders / on the target / 2^-k beside '
                        'them, compressive R > 1; interfaces: plain function, DataFrame accessor (range/mean or from/to; RangeIndex, named, MultiIndex, '
-                       'string index; one diagram per element), histogram accessor (range/mean and from/to matrices, optional node level); '
+                       'string index; one diagram per element), histogram accessor (range/mean and from/to matrices, optional node level; 55% product order, else rows '
+                       'shuffled / reversed / two rows swapped and / or index levels reordered); 40% of the non-wild diagrams additionally through HaighDiagram.from_dict '
+                       'in a random rotation of the natural segment order; collective cycles with -0.0 as upper or lower value; '
                        'non-trivial = distinct (diagram, target, cycle) triples whose model/implementation pair was compared')
     common.standard_proof_stage(res, 'C12')
 
     stats = {'calls': 0, 'oracle': 0, 'paths': 0, 'at_target': 0, 'mono_pairs': 0, 'multi': 0, 'hist': 0, 'hist_degenerate': 0,
              'skipped_goal_or_divisor': 0, 'nontrivial': set(), 'cycle_regions': {}, 'rebin_hyp_ok': 0, 'rebin_hyp_bad': 0,
-             'rebin_hyp_examples': []}
+             'rebin_hyp_examples': [], 'hist_layouts': {}, 'hist_booked': 0, 'signed_zero': 0, 'listed': {},
+             'tie_order_unspecified': 0}
     terms, info, rterms, rinfo = [], [], [], []
     # which variant of the model is the code?  fx = false: the code with the open finding five-segment-target-neg-inf
     # (cycles at R > 1 are not moved when R_goal = -inf); fx = true: the repaired code.  Decided by replaying the finding's
@@ -458,6 +626,21 @@ def run(res):
     res.cov['model_variant'] = 'fx=%s (%s)' % (stats['fx'], 'code as it is, finding reproduces' if defect_present else 'repaired code')
     if defect_present and not any(e.get('status') == 'open' for e in kf):
         res.violation(W_CLOSED, **KF_WITNESS)
+    # fo = false: the code as it is (ties between (1, inf) and (-inf, 0) are processed in listing order: open finding
+    # segment-listing-order); fo = true: the code with fixes/C12-segment-listing-order.patch.  Same procedure as for fx.
+    listing_defect = replay_violation(dict(KF_LISTING, what=W_CLOSED))
+    stats['fofx'] = '%s %s' % ('false' if listing_defect else 'true', stats['fx'])
+    if listing_defect and not any(e['id'] == 'segment-listing-order' and e.get('status') == 'open' for e in common.known_findings('C12')):
+        res.violation(W_CLOSED, **KF_LISTING)
+    # re-binning: the code as it is pairs transformed ranges and counts by position (open finding matrix-row-order);
+    # the code with fixes/C12-matrix-row-order.patch pairs them by label.  The model's rebin gets what the code pairs.
+    rows_defect = replay_violation(dict(KF_ROWS, what=W_BOOK))
+    stats['rebin_by_label'] = not rows_defect
+    if rows_defect and not any(e['id'] == 'matrix-row-order' and e.get('status') == 'open' for e in common.known_findings('C12')):
+        res.violation(W_BOOK, **KF_ROWS)
+    res.cov['model_variant'] += '; fo=%s (segments walked in %s); re-binning pairs by %s' % (
+        'false' if listing_defect else 'true', 'listing order of ties, finding reproduces' if listing_defect else 'repaired tie order',
+        'position (finding reproduces)' if rows_defect else 'label (repaired code)')
     import time
     t0 = time.time()
     for c in load_corpus():          # hand-picked edge cases and minimised earlier failures run first
@@ -467,13 +650,19 @@ def run(res):
     for it in range(n_batch):
         wild = it % 10 == 7
         d = ms.gen_fkm(rng) if it % 2 == 0 else ms.gen_five(rng, wild)
+        listed = it % 5 in (1, 2) and not wild
+        if listed:      # the same diagram through HaighDiagram.from_dict, segments listed in a rotated order
+            d = dict(d, listing=rng.randrange(3 if d['kind'] == 'fkm' else 5))
+            stats['listed'][d['listing']] = stats['listed'].get(d['listing'], 0) + 1
         Rg = ms.gen_goal(rng, d)
         if Rg == 1.0 or not ms.denominators_ok(d, Rg):
             stats['skipped_goal_or_divisor'] += 1
             continue
         batch(res, rng, d, Rg, stats, terms, info)
-        if it % 4 == 0 and not wild:
+        if it % 4 == 0 and not wild and not listed:
             mono_batch(res, rng, d, Rg, stats)
+    for it in range(10 if quick else 100):
+        signed_zero_batch(res, rng, stats)
     for it in range(12 if quick else 120):
         multi_batch(res, rng, 'fkm' if it % 2 == 0 else 'five', stats, terms, info)
     for it in range(40 if quick else 400):
@@ -501,9 +690,10 @@ def run(res):
     res.add_cases(len(terms) + len(rterms), nontrivial=len(stats['nontrivial']))
     res.add_cases(stats['oracle'] + stats['paths'] + stats['mono_pairs'] + stats['multi'], nontrivial=0)
     for k in ('corpus_batches', 'calls', 'oracle', 'paths', 'at_target', 'mono_pairs', 'multi', 'hist', 'hist_degenerate', 'skipped_goal_or_divisor',
-              'cycle_regions'):
+              'cycle_regions', 'hist_layouts', 'hist_booked', 'signed_zero', 'listed', 'tie_order_unspecified'):
         res.cov['impl_' + k if k == 'calls' else k] = stats[k]
-    for k in ('multi_rejected', 'multi_rejected_example'):
+    res.cov['listed'] = {'from_dict listing (rotation of the natural order) %d' % k: v for k, v in sorted(stats['listed'].items())}
+    for k in ('multi_rejected', 'multi_rejected_example', 'hist_rejected', 'hist_rejected_example'):
         if k in stats:
             res.cov[k] = stats[k]
     res.cov['correspondence_disagreements'] = len(bad) + len(rbad)
@@ -517,7 +707,7 @@ def run(res):
 def replay(res, rp):
     v = rp.get('violation')
     if v and 'diagram' in v:
-        res.classes['five-segment-M4-target-neg-inf'] = in_known_class
+        register_classes(res)
         fails = replay_violation(v)
         print('replay: %s -> %s' % (v['what'], 'still fails' if fails else 'holds'))
         if fails:
